@@ -47,6 +47,69 @@ SplitOn(s, c, cur, acc) == IF s = <<>> THEN Append(acc, cur)
 ErrV(msg) == V("error", 0, <<msg>>, <<>>)
 IntOf(v) == IF v.k = "int" THEN v.n ELSE 0
 
+\* ---- numbers with a fractional part: a "fix" value carries thousandths (n = 1250 is 1.25)
+Fix(n) == V("fix", n, <<>>, <<>>)
+AbsI(n) == IF n < 0 THEN 0 - n ELSE n
+RECURSIVE Pow10(_)
+Pow10(k) == IF k <= 0 THEN 1 ELSE 10 * Pow10(k - 1)
+ZeroPad(ds, w) == [i \in 1..(w - Len(ds)) |-> "0"] \o ds
+\* thousandths of the number a value converts to (Value.Float): text that is not a number, nil, booleans, sequences are 0
+ThousandthsOf(v) == CASE v.k = "fix" -> v.n [] v.k = "int" -> v.n * 1000 [] OTHER -> 0
+\* decimal notation with d places, correctly rounded, ties to even (the value is exact when it is a multiple of 1/8)
+FmtFix(n, d) ==
+  LET m == AbsI(n) IN
+  LET q == IF d >= 3 THEN m * Pow10(d - 3)
+           ELSE LET u == Pow10(3 - d) IN LET qq == m \div u r == m % u IN
+                IF 2 * r > u \/ (2 * r = u /\ qq % 2 = 1) THEN qq + 1 ELSE qq IN
+  (IF n < 0 THEN <<"-">> ELSE <<>>) \o NatStr(q \div Pow10(d)) \o (IF d = 0 THEN <<>> ELSE <<".">> \o ZeroPad(NatStr(q % Pow10(d)), d))
+\* a tie that binary floating point cannot represent exactly has no settled rounding: such inputs are not generated
+UnsettledTie(n, d) == d < 3 /\ 2 * (AbsI(n) % Pow10(3 - d)) = Pow10(3 - d) /\ n % 125 # 0
+\* integer written in a string ("-3"): optional sign and digits, anything else is 0
+DigitVal(c) == CASE c = "0" -> 0 [] c = "1" -> 1 [] c = "2" -> 2 [] c = "3" -> 3 [] c = "4" -> 4 [] c = "5" -> 5 [] c = "6" -> 6 [] c = "7" -> 7
+                 [] c = "8" -> 8 [] c = "9" -> 9 [] OTHER -> 0 - 1
+RECURSIVE ParseNat(_, _)
+ParseNat(s, acc) == IF s = <<>> THEN acc ELSE IF DigitVal(Head(s)) < 0 \/ acc < 0 THEN 0 - 1 ELSE ParseNat(Tail(s), acc * 10 + DigitVal(Head(s)))
+ParseInt(s) == IF s = <<>> THEN 0
+               ELSE IF Head(s) = "-" THEN (IF Tail(s) = <<>> \/ ParseNat(Tail(s), 0) < 0 THEN 0 ELSE 0 - ParseNat(Tail(s), 0))
+               ELSE IF ParseNat(s, 0) < 0 THEN 0 ELSE ParseNat(s, 0)
+ArgInt(a) == CASE a.k = "int" -> a.n [] a.k = "str" -> ParseInt(a.s) [] a.k = "fix" -> (IF a.n < 0 THEN 0 - (AbsI(a.n) \div 1000) ELSE a.n \div 1000) [] OTHER -> 0
+\* floatformat: no argument = one place, trimmed; n > 0 = exactly n places; n <= 0 or a non-numeric argument = |n| places, trimmed
+\* (trimmed: a whole number is given as an integer)
+FloatFormat(v, a) ==
+  LET val == ThousandthsOf(v) IN
+  LET d0 == IF a.k = "nil" THEN 0 - 1 ELSE ArgInt(a) IN
+  LET trim == (a.k \notin {"int", "fix"}) \/ d0 <= 0 IN
+  LET d == AbsI(d0) IN
+  IF trim /\ val % 1000 = 0 THEN I(IF val < 0 THEN 0 - (AbsI(val) \div 1000) ELSE val \div 1000)
+  ELSE IF d > 1000 THEN ErrV("too many decimals")
+  ELSE S(FmtFix(val, d))
+\* stringformat: the verbs the documentation names, with width and flags ( %d %5d %-4d %03d %s %5s %-4s %v and literal text around them)
+\* spec: [pre, flag \in {"", "-", "0"}, width, verb \in {"d", "s", "v"}, post]
+PadTo(body, width, flag) ==
+  IF Len(body) >= width THEN body
+  ELSE IF flag = "-" THEN body \o Spaces(width - Len(body))
+  ELSE IF flag = "0" /\ body # <<>> /\ Head(body) = "-" THEN <<"-">> \o ZeroPad(Tail(body), width - 1)
+  ELSE IF flag = "0" THEN ZeroPad(body, width)                    \* (Go pads text with zeros as well)
+  ELSE Spaces(width - Len(body)) \o body
+StringFormat(v, spec) ==
+  S(spec.pre \o PadTo(StrOf(v), spec.width, spec.flag) \o spec.post)
+\* date / time: only a point in time can be formatted; the layout is Go's reference-time notation, token by token
+\* instants: 1 = 2006-01-02 15:04:05 UTC (the reference time itself), 2 = 1999-12-31 23:59:58 UTC
+Instant(i) == V("time", i, <<>>, <<>>)
+LayoutTok(i, tok) ==
+  CASE tok = "2006" -> (IF i = 1 THEN <<"2", "0", "0", "6">> ELSE <<"1", "9", "9", "9">>)
+    [] tok = "01" -> (IF i = 1 THEN <<"0", "1">> ELSE <<"1", "2">>)
+    [] tok = "02" -> (IF i = 1 THEN <<"0", "2">> ELSE <<"3", "1">>)
+    [] tok = "15" -> (IF i = 1 THEN <<"1", "5">> ELSE <<"2", "3">>)
+    [] tok = "04" -> (IF i = 1 THEN <<"0", "4">> ELSE <<"5", "9">>)
+    [] tok = "05" -> (IF i = 1 THEN <<"0", "5">> ELSE <<"5", "8">>)
+    [] tok = "Jan" -> (IF i = 1 THEN <<"J", "a", "n">> ELSE <<"D", "e", "c">>)
+    [] tok = "Mon" -> (IF i = 1 THEN <<"M", "o", "n">> ELSE <<"F", "r", "i">>)
+    [] tok = "PM" -> <<"P", "M">>
+    [] tok = "3" -> (IF i = 1 THEN <<"3">> ELSE <<"1", "1">>)
+    [] OTHER -> <<tok>>                    \* anything else stands for itself
+DateFormat(v, layout) == IF v.k # "time" THEN ErrV("not a time") ELSE S(Flatten3([j \in 1..Len(layout) |-> LayoutTok(v.n, layout[j])]))
+
 \* FilterRef(f, v, a): the reference result of v|f:a  (a = Nil when no argument is written)
 FilterRef(f, v, a) ==
   CASE f = "slice" ->      \* a = pair value P(lo, hi), each an int value or Nil for an omitted bound
@@ -109,8 +172,10 @@ FilterRef(f, v, a) ==
          ELSE S(IF Truthy(v) THEN parts[1] ELSE parts[2])
     [] f = "default" -> IF Truthy(v) THEN v ELSE a
     [] f = "default_if_none" -> IF v.k = "nil" THEN a ELSE v
-    [] f = "integer" -> I(IntOf(v))
+    [] f = "integer" -> I(IF v.k = "fix" THEN (IF v.n < 0 THEN 0 - (AbsI(v.n) \div 1000) ELSE v.n \div 1000) ELSE IntOf(v))
     [] f = "safe" -> v
+    [] f = "floatformat" -> FloatFormat(v, a)
+    [] f = "float" -> Fix(ThousandthsOf(v))
     [] OTHER -> ErrV("no reference")
 
 \* widthratio value max width: round(value / max * width) to the nearest integer (an exact half either way: flagged)
